@@ -222,6 +222,30 @@ PROPS['C14'] = {
     'assumptions': ['the CMS envelope (SignedObject::decode_if_type) hands exactly the eContent octets to ManifestContent::take_from'],
 }
 
+PROPS['C01'] = {
+    'level': 'proof',
+    'technique': 'Lean 4 theorems on a model of Cert::validate_{ta,ca,ee,router}_at (inspect_* + verify_*_at over the decoded facts, signature verdict as an input) composed with the proved resource-chain model of C03 (acceptance implies the stated conditions, exact iff for issued certificates, resources subset of the issuer by induction over the chain, every single fault rejects) + differential check of the real validator on TA->CA*->EE/router chains assembled by an independent RFC 6487 DER encoder with single-point tamperings',
+    'claim': 'Lean 4 proofs: verify_ca_at/verify_ee_at succeed iff the time is inside the window, AKI = issuer SKI (and AIA present), the signature verifies under the issuer key and verify_issued admits the resources; acceptance of a CA/EE/router/TA certificate implies signature, window, AKI (TA: self-signature, no inherit) and SKI = key hash; the validated resources are canonical and a subset of the issuer\'s in every family (exact cases from C03.verifyIssued_subset), along whole chains TA->CA*->EE by induction; a no-overclaim certificate claiming anything outside is rejected; each single non-conforming input rejects. Partial: RSA/ECDSA verification, SHA-1 and the X.509 DER envelope are not modelled (signature verdict and decoded facts are inputs of the model); they are tied to the code by the correspondence run where ground truth comes from the generator.',
+    'note': 'ground truth of every case (who signed what, which bytes were altered, claimed blocks, key identifiers) comes from the harness encoder, never from the library. The step order of verify_*_at, the AKI comparison, the SKI comparison and the inspect-then-verify composition are re-read from src/repository/cert.rs on every run.',
+    'shards': {'quick': 4, 'thorough': 16},
+    'budget': {'quick': 900, 'thorough': 7200},
+    'rule': '1.5k (thorough 12k) chains of depth 0-3 below a TA with random IPv4/IPv6/AS sets (small numbers, ends of the space, /8 boundaries), per-certificate inherit/missing/subset/overclaim claims under refuse or trim policy; leaf kinds ta/ca/ee/detached-ee/router (ECDSA and RSA keys); one tampering per case out of 24: time at nb-1/nb/na/na+1, nb=na, foreign signer, AKI of another key / one bit / absent, SKI one bit / other key, signature bit flip, TBS bit flip, resource OID/policy mismatch, CRLDP/AIA/basicConstraints/SIA toggles, TA inherit, policy switch, EKU toggle, rpkiNotify.',
+    'trusted_base': ['aws-lc RSA/ECDSA verification and SHA-1 (idealised as the sigOk / keyId inputs)', 'bcder and the X.509 decoder for everything except what the facts record (validated differentially)'],
+    'assumptions': ['a signature verifies under a key iff it was produced with the matching private key over exactly those bytes (no forgeries, no collisions)'],
+}
+
+PROPS['C02'] = {
+    'level': 'proof',
+    'technique': 'Lean 4 theorems on a model of SignedObject::validate_at, the signed-attribute parser, SignedAttrs::encode_verify (proved equal to the DER SET OF encoding for every admissible size) and the ROA/ASPA coverage checks, composed with the C01 and C03 models (exact acceptance iff, every single fault rejects, coverage iff set inclusion) + differential check of the real code on objects assembled by an independent RFC 5652/6488 encoder',
+    'claim': 'Lean 4 proofs: encode_verify(attrs) = 31 <DER length> attrs for every length below 65536 (false for the code before fix abf0291, which wrote 02 hi lo from 128 octets on); validate_at accepts iff the attributes are exactly one content-type (= eContentType), message-digest and signing-time, sid = EE SKI, digest attribute = digest of the content, signature by the EE key over the DER SET OF, and the EE certificate validates under the issuer (C01); Roa::process iff additionally the CRL verdict is ok and every address of every prefix is in the validated EE resources (hence in the issuer\'s); ASPA iff customer in the AS resources, no inheritance, no IP resources. Partial as C01: signatures, SHA-256 (checked against an independent Lean SHA-256 in the oracle) and the CMS/X.509 envelopes are inputs of the model, tied by the correspondence run.',
+    'note': 'ground truth (what was signed with which key, attribute bytes, digest, prefixes) comes from the harness encoder. The DER-length shape of encode_verify and the EE validation composition are re-read from the source on every run. Roa::process/Aspa::process evaluate at the wall clock; those cases use 2000-2100 validity windows.',
+    'shards': {'quick': 4, 'thorough': 16},
+    'budget': {'quick': 900, 'thorough': 7200},
+    'rule': '1.2k (thorough 8k) objects: generic signed objects with content-type OIDs of 9-250 octets (signed attributes 100-400 octets incl. 127/128/255/256 boundaries), ROAs (prefixes inside/outside/partially outside the EE resources, both families, max-length, EE exact/inherit/trimmed/too small), ASPAs (customer inside/outside, inherit, IP resources present), manifests; one tampering per case out of 22: sid bit, foreign signer, signature bit, signature over [0]-tagged / non-DER-length / content bytes, wrong digest, short digest, content-type mismatch, missing/duplicate/unknown attribute, non-DER attribute order, CMS/SignerInfo version, GeneralizedTime signing time, EE signed by stranger, EE AKI, evaluation time at the window ends, CRL callback refusal, EE with cA, EE without signedObject SIA.',
+    'trusted_base': ['aws-lc RSA verification and SHA-256 (the latter compared with the Lean SHA-256 on every case)', 'bcder and the CMS/X.509 decoders for everything except what the facts record (validated differentially)'],
+    'assumptions': ['a signature verifies under a key iff it was produced with the matching private key over exactly those bytes'],
+}
+
 NOT_APPLICABLE = {
 }
 for _i in range(1, 18):
